@@ -67,7 +67,9 @@ pub trait RollingValidCmp<T: IsNone>: Vec1View<T> {
                         }
                     }
                     let out = if n >= min_periods {
+                        // an index is only meaningful when a valid minimum exists
                         min_idx
+                            .filter(|_| min.is_some())
                             .map(|min_idx| (min_idx - start.unwrap_or(0) + 1).f64())
                             .unwrap_or(f64::NAN)
                             .cast()
@@ -219,7 +221,9 @@ pub trait RollingValidCmp<T: IsNone>: Vec1View<T> {
                         }
                     }
                     let out = if n >= min_periods {
+                        // an index is only meaningful when a valid maximum exists
                         max_idx
+                            .filter(|_| max.is_some())
                             .map(|max_idx| (max_idx - start.unwrap_or(0) + 1).f64())
                             .unwrap_or(f64::NAN)
                             .cast()
